@@ -576,7 +576,8 @@ def tls_case_st(draw):
     # and followed by nothing: data arriving after the server has answered and closed makes any TCP stack reset the
     # connection and drop what was queued, which no server can prevent
     lab = set(c["labels"])
-    settled = ("req:trailing" not in lab) and (bool(lab & {"req:gemini-simple", "req:gemini-valid", "big-body"}) or {"req:titan", "titan:exact"} <= lab)
+    settled = ("req:trailing" not in lab) and (bool(lab & {"req:gemini-simple", "req:gemini-valid", "big-body"})
+                                               or ({"req:titan", "titan:exact"} <= lab and c["upload"] is not None))
     c["slow_reader"] = settled and not c["disconnect"] and draw(st.integers(0, 2)) == 0
     c["tls_mode"] = draw(st.sampled_from(["separate", "coalesce"]))
     c["tls"] = draw(st.sampled_from(["1.3", "1.3", "1.2"]))
